@@ -61,6 +61,44 @@ def certOK (shape : List Nat) (h : List Rat) (p : Nat → Rat) (g : Nat → Nat 
 def certValue (shape : List Nat) (h : List Rat) (f p : Nat → Rat) : Rat :=
   sumTo (numCells shape) (fun c => p c * (vol h * f c))
 
+/-! ### exact dual of a rule with rational nodes: one dual vector `g c q` per cell and quadrature point -/
+
+/-- RT0 interpolation weights of the dual field: what cell `c` contributes to its upper (`dualHi`) and lower (`dualLo`) face
+of axis `a` -/
+def dualHi (nq : Nat) (wq : Nat → Rat) (ptq : Nat → List Rat) (g : Nat → Nat → Nat → Rat) (c a : Nat) : Rat :=
+  sumTo nq (fun q => wq q * (ptq q).getD a 0 * g c q a)
+def dualLo (nq : Nat) (wq : Nat → Rat) (ptq : Nat → List Rat) (g : Nat → Nat → Nat → Rat) (c a : Nat) : Rat :=
+  sumTo nq (fun q => wq q * (1 - (ptq q).getD a 0) * g c q a)
+
+/-- exact check of a per-point dual certificate (hypotheses of `C05.potential_lower_bound_rule`) -/
+def certRuleOK (shape : List Nat) (h : List Rat) (nq : Nat) (wq : Nat → Rat) (ptq : Nat → List Rat) (p : Nat → Rat)
+    (g : Nat → Nat → Nat → Rat) : Bool :=
+  ((List.range (numFaces shape)).all fun k =>
+    decide (vol h * (dualHi nq wq ptq g (conn shape k).1 (faceAxis shape k) + dualLo nq wq ptq g (conn shape k).2 (faceAxis shape k)) =
+      -(area h (faceAxis shape k) * (p (conn shape k).2 - p (conn shape k).1)))) &&
+  ((List.range (numCells shape)).all fun c => (List.range nq).all fun q =>
+    decide (sumTo shape.length (fun a => g c q a * g c q a) ≤ 1))
+
+/-- the corner rule `reference_cell_corners(dim)` (CONSTANT_SUBCELL_PROJECTION): corner `q < 2^dim` has coordinate `a` = bit
+`a` of `q`; every weight is `2^-dim` (the order of the corners is irrelevant for the cost) -/
+def cornerPt (dim q : Nat) : List Rat := (List.range dim).map fun a => (((q / 2 ^ a) % 2 : Nat) : Rat)
+def cornerW (dim : Nat) (_q : Nat) : Rat := 1 / ((2 ^ dim : Nat) : Rat)
+
+/-! ### `EMD.__call__`'s own arithmetic (src/darsia/measure/emd.py); pixels flattened row-major, `k = row·C + col` -/
+
+/-- `_sum(img)` -/
+def emdIntegral (n : Nat) (a : Nat → Rat) : Rat := sumTo n a
+
+/-- `_normalize(img)` : weights of the signature -/
+def emdWeight (n : Nat) (a : Nat → Rat) (k : Nat) : Rat := a k / emdIntegral n a
+
+/-- physical position stored in the signature for pixel `k`: `(col·del_x, row·del_y)` with `del_y, del_x = voxel_size` -/
+def emdPos (C : Nat) (dy dx : Rat) (k : Nat) : Rat × Rat := (((k % C : Nat) : Rat) * dx, ((k / C : Nat) : Rat) * dy)
+
+/-- `_img_to_sig(normalized, dx)` : rows `[weight, col·del_x, row·del_y]` in row-major pixel order -/
+def sigOf (R C : Nat) (dy dx : Rat) (a : Nat → Rat) : List (Rat × Rat × Rat) :=
+  (List.range (R * C)).map fun k => (emdWeight (R * C) a k, (emdPos C dy dx k).1, (emdPos C dy dx k).2)
+
 /-- `EMD.__call__` for a single-cell move of `value` by (`drow`, `dcol`) voxels: `cv2.EMD` returns the displacement
 length `√((dcol·dx)² + (drow·dy)²)` (total flow normalised to 1), rescaled by `integral · cell_volume`;
 returned here as the square of the result. -/
